@@ -126,6 +126,13 @@ func randomCfg(r *rand.Rand, must ...string) world.Cfg {
 		c.Providers = []string{"alpha", "beta-2"}
 	}
 	c.ProfileKeys = []string{"name"}
+	// knobs added later are drawn from a generator of their own, keyed by the configuration drawn so far:
+	// they must not shift the histories that earlier seeds produce
+	h := fnv.New64a()
+	h.Write([]byte(c.String()))
+	r2 := rand.New(rand.NewSource(int64(h.Sum64())))
+	c.TwoFASetupFirst = len(c.TwoFA) > 0 && r2.Intn(3) == 0
+	c.AccessLog = []string{"", "", "current", "load"}[r2.Intn(4)]
 	return c
 }
 
